@@ -1318,6 +1318,12 @@ func (s *Store) GetRelatedAtTime(from *RelatedFrom, limit int) ([]qresult, *Rela
 					added[predID][relatedID] = true
 				}
 
+				// a non-deleted relation found before the start key was emitted by an earlier page. remember that,
+				// so that the same relation is not emitted again from an older key of another dataset
+				if del != 1 && !hasReachedStartKey {
+					added[predID][relatedID] = true
+				}
+
 				// set at end of iteration so that we jump over the item the previous page gave as continuation, while still
 				// adding it to seenIds
 				if !hasReachedStartKey {
